@@ -39,3 +39,108 @@ func NewDB() *sql.DB {
 	openDBs = append(openDBs, db)
 	return db
 }
+
+// NewDBNoCheck is NewDB with column CHECK constraints switched off, so a harness
+// can show the Go-level funds checks hold without leaning on the SQL backstop.
+func NewDBNoCheck() *sql.DB {
+	dir, err := os.MkdirTemp("", "verifdb")
+	if err != nil {
+		panic(err)
+	}
+	openDirs = append(openDirs, dir)
+	db, err := sql.Open("sqlite3", "file:"+filepath.Join(dir, "pegnet.db")+"?_ignore_check_constraints=1")
+	if err != nil {
+		panic(err)
+	}
+	openDBs = append(openDBs, db)
+	return db
+}
+
+// Queryer is what *sql.DB and *sql.Tx have in common.
+type Queryer interface {
+	Query(query string, args ...interface{}) (*sql.Rows, error)
+}
+
+var snaps []map[string][]string
+
+// Snapshot records the full content of every table as seen through q.
+func Snapshot(q Queryer) int {
+	snap := map[string][]string{}
+	rows, err := q.Query(`SELECT name FROM sqlite_master WHERE type = 'table'`)
+	if err != nil {
+		panic(err)
+	}
+	var names []string
+	for rows.Next() {
+		var n string
+		if err := rows.Scan(&n); err != nil {
+			panic(err)
+		}
+		names = append(names, n)
+	}
+	rows.Close()
+	for _, n := range names {
+		r, err := q.Query(`SELECT rowid, * FROM "` + n + `" ORDER BY rowid`)
+		if err != nil {
+			panic(err)
+		}
+		cols, _ := r.Columns()
+		for r.Next() {
+			vals := make([]interface{}, len(cols))
+			ptrs := make([]interface{}, len(cols))
+			for i := range vals {
+				ptrs[i] = &vals[i]
+			}
+			if err := r.Scan(ptrs...); err != nil {
+				panic(err)
+			}
+			line := ""
+			for _, v := range vals {
+				switch x := v.(type) {
+				case []byte:
+					line += "|b:" + string(x)
+				case string:
+					line += "|s:" + x
+				case nil:
+					line += "|null"
+				default:
+					line += "|" + sprint(x)
+				}
+			}
+			snap[n] = append(snap[n], line)
+		}
+		r.Close()
+	}
+	snaps = append(snaps, snap)
+	return len(snaps) - 1
+}
+
+// SameStore compares two snapshots table by table (rows, row ids, every cell),
+// ignoring the named tables.
+func SameStore(a, b int, ignore ...string) bool {
+	ig := map[string]bool{}
+	for _, n := range ignore {
+		ig[n] = true
+	}
+	sa, sb := snaps[a], snaps[b]
+	for n, ra := range sa {
+		if ig[n] {
+			continue
+		}
+		rb := sb[n]
+		if len(ra) != len(rb) {
+			return false
+		}
+		for i := range ra {
+			if ra[i] != rb[i] {
+				return false
+			}
+		}
+	}
+	for n, rb := range sb {
+		if !ig[n] && len(sa[n]) != len(rb) {
+			return false
+		}
+	}
+	return true
+}
